@@ -23,14 +23,20 @@ REPORT_UNKNOWN_USER = (1, 3, 6, 1, 6, 3, 15, 1, 1, 3, 0)
 class UserKeys:
     """Agent-side knowledge of one USM user (keys before localization)."""
 
-    def __init__(self, name, auth_alg=None, auth_ku=None, priv_alg=None, priv_ku=None):
+    def __init__(self, name, auth_alg=None, auth_ku=None, priv_alg=None, priv_ku=None, auth_kul_fixed=None, priv_kul_fixed=None):
         self.name = name  # bytes
         self.auth_alg, self.auth_ku, self.priv_alg, self.priv_ku = auth_alg, auth_ku, priv_alg, priv_ku
+        # a user configured with an already localized key: the key is what it is, whatever the engine id
+        self.auth_kul_fixed, self.priv_kul_fixed = auth_kul_fixed, priv_kul_fixed
 
     def auth_kul(self, engine_id):
+        if self.auth_kul_fixed is not None:
+            return self.auth_kul_fixed
         return C.localize(self.auth_alg, self.auth_ku, engine_id) if self.auth_alg else None
 
     def priv_kul(self, engine_id):
+        if self.priv_kul_fixed is not None:
+            return self.priv_kul_fixed
         return C.localize(self.auth_alg, self.priv_ku, engine_id) if self.priv_alg else None
 
 
@@ -315,13 +321,16 @@ class Cfg:
 
     def __init__(self, version="v2c", community="public", user="u", auth=None, priv=None,
                  auth_kt="password", priv_kt="password", auth_pw=b"authpass123", priv_pw=b"privpass456",
-                 engine_given=False, client="sync", empty_engine=False):
+                 engine_given=False, client="sync", empty_engine=False, auth_raw=None, priv_raw=None):
         self.version, self.community, self.user = version, community, user
         self.auth, self.priv = auth, priv          # None | 'md5' | 'sha1' ; None | 'des' | 'aes'
         self.auth_kt, self.priv_kt = auth_kt, priv_kt
         self.auth_pw, self.priv_pw = auth_pw, priv_pw
         self.engine_given, self.client = engine_given, client
         self.empty_engine = empty_engine   # pass engine_id=b"" explicitly instead of None (same meaning: discover)
+        # raw mode: these very octets are handed to the API under auth_kt / priv_kt (instead of deriving the master /
+        # localized form from a pass phrase), e.g. the same octets as auth *password* and privacy *master key*
+        self.auth_raw, self.priv_raw = auth_raw, priv_raw
 
     def key(self):
         if self.version != "v3":
@@ -337,18 +346,36 @@ class Cfg:
 
     def user_keys(self):
         a = self.auth_alg()
+        if a and (self.auth_raw is not None or self.priv_raw is not None):
+            L = C.KEYLEN[a]
+
+            def from_raw(raw, kt, pw):
+                # -> (Ku, fixed Kul); the Python layer pads / truncates master and localized keys to the digest size
+                if raw is None:
+                    return C.password_to_key(a, pw), None
+                if kt == "password":
+                    return C.password_to_key(a, raw), None
+                padded = (raw + bytes(L))[:L]
+                return (padded, None) if kt == "master" else (None, padded)
+            aku, akul = from_raw(self.auth_raw, self.auth_kt, self.auth_pw)
+            pku, pkul = from_raw(self.priv_raw, self.priv_kt, self.priv_pw) if self.priv else (None, None)
+            return UserKeys(self.user.encode(), a, aku, self.priv_alg(), pku, auth_kul_fixed=akul, priv_kul_fixed=pkul)
         return UserKeys(self.user.encode(), a, C.password_to_key(a, self.auth_pw) if a else None,
                         self.priv_alg(), C.password_to_key(a, self.priv_pw) if (a and self.priv) else None)
 
     def to_json(self):
         d = dict(self.__dict__)
         d["auth_pw"], d["priv_pw"] = self.auth_pw.hex(), self.priv_pw.hex()
+        d["auth_raw"] = self.auth_raw.hex() if self.auth_raw is not None else None
+        d["priv_raw"] = self.priv_raw.hex() if self.priv_raw is not None else None
         return d
 
     @staticmethod
     def from_json(d):
         d = dict(d)
         d["auth_pw"], d["priv_pw"] = bytes.fromhex(d["auth_pw"]), bytes.fromhex(d["priv_pw"])
+        for k in ("auth_raw", "priv_raw"):
+            d[k] = bytes.fromhex(d[k]) if d.get(k) is not None else None
         return Cfg(**d)
 
 
@@ -360,7 +387,9 @@ def make_user(cfg, engine_id):
     a = cfg.auth_alg()
     if a:
         cls = Md5Key if cfg.auth == "md5" else Sha1Key
-        if cfg.auth_kt == "password":
+        if cfg.auth_raw is not None:
+            v = cfg.auth_raw
+        elif cfg.auth_kt == "password":
             v = cfg.auth_pw
         elif cfg.auth_kt == "master":
             v = C.password_to_key(a, cfg.auth_pw)
@@ -369,7 +398,9 @@ def make_user(cfg, engine_id):
         ak = cls(v, key_type=kt[cfg.auth_kt])
     if cfg.priv:
         cls = DesKey if cfg.priv == "des" else Aes128Key
-        if cfg.priv_kt == "password":
+        if cfg.priv_raw is not None:
+            v = cfg.priv_raw
+        elif cfg.priv_kt == "password":
             v = cfg.priv_pw
         elif cfg.priv_kt == "master":
             v = C.password_to_key(a, cfg.priv_pw)
